@@ -183,6 +183,7 @@ def _subdaily(cin, variant):
 def _temp(cin, variant):
     em = _st["em"]
     variant, zone = split_variant(variant)
+    variant, _, elec0 = variant.partition("!")     # "!e0": an electricity meter that reads exactly 0 on the judged day and the next one
     mh = cin.get("mh", 0)
     date = _target_date(cin["dayMin"], zone)
     idx, on = _day_index(date, cin["interval"], zone, mh)
@@ -202,10 +203,13 @@ def _temp(cin, variant):
     if mh:
         days = days[:-1]                        # the last meter day would start after the last reading
     meter = pd.Series(20.0 + np.arange(len(days)), index=days, name="observed")
+    if elec0:
+        tgt = (pd.Timestamp(date) - pd.Timedelta(days=1 if mh else 0)).date()
+        meter[(meter.index.date == tgt) | (meter.index.date == (pd.Timestamp(tgt) + pd.Timedelta(days=1)).date())] = 0.0
     out = {"res": "ok", "has": False, "n": 0, "d": 1, "ok": False, "notnull": -1, "null": -1}
     try:
         C = em.DailyBaselineData if variant != "billing" else em.DailyBaselineData
-        obj = C.from_series(meter, feed, is_electricity_data=False)
+        obj = C.from_series(meter, feed, is_electricity_data=bool(elec0))
         df = obj.df
         combined = pd.concat([meter.to_frame("observed"), feed.tz_convert(zone).to_frame("temperature")], axis=1)
         cov = obj._set_data(combined)[1]
